@@ -48,7 +48,7 @@ def run(rep):
             rep.note(f"Dev={{{d}}} violates {rv.violated}")
     cases = [s for s in scen if s["fault"]["step"] != "none"]
     if quick:
-        cases = [s for s in cases if rng.random() < 0.45]
+        cases = [s for s in cases if rng.random() < 0.35]
     cases = [K.assign_flavours(s, rng) for s in cases]
     skipped = [s for s in cases if not K.in_fragment(s)]
     cases = [s for s in cases if K.in_fragment(s)]
@@ -56,7 +56,7 @@ def run(rep):
     rep.bounds["enumerated"] = dict(universe=uni, scenarios=len(scen), replayed=len(cases), outside_fragment=len(skipped))
     rep.exhaustive = not quick
     # (I->S)
-    n = 200 if quick else 4000
+    n = 150 if quick else 1500
     rnd = []
     k = 0
     while len(rnd) < n:
